@@ -30,6 +30,7 @@ def configs():
                 out.append({'logic': logic, 'argstr': argstr, 'mode': mode, 'limit': limit, 'tmo': 0})
             out.append({'logic': logic, 'argstr': argstr, 'mode': mode, 'limit': -1, 'tmo': 1})
             out.append({'logic': logic, 'argstr': argstr, 'mode': mode, 'limit': 2, 'tmo': 1})
+        out.append({'logic': logic, 'argstr': argstr, 'mode': 'auto', 'limit': -1, 'tmo': 2})
     return out
 
 
@@ -70,8 +71,9 @@ def run(rep):
             rep.violation({'kind': 'lifecycle', 'clause': f['clause'], 'call': f['call'], 'ret': f['ret'],
                            'mode': f['cfg']['mode'], 'pre_finished': f['pre']['finished'], 'pre_started': f['pre']['started']}, f)
     nseq = sum(1 for _ in open(g.out_path))
-    if total != nseq * len(cfgs):
-        raise C.MachineryError(f'C17: expected {nseq * len(cfgs)} traces, validated {total}')
+    nskip = sum(1 for c in cfgs if c['tmo'] == 2)       # cumulative-timeout configurations need a proof of >= 3 steps
+    if not (nseq * (len(cfgs) - nskip) <= total <= nseq * len(cfgs)):
+        raise C.MachineryError(f'C17: expected about {nseq * len(cfgs)} traces, validated {total}')
     rep.cov['model_drift'] = drift
     rep.cov['evaluations'] = total * depth
     rep.cov['distinct_nontrivial'] = total
